@@ -129,7 +129,9 @@ def apply(inst, op):
         _, label, name, how = op
         target = next((o for l, o, _, _ in inst.targets() if l == label), None)
         if target is None:
-            return f"{label} is no longer reachable"
+            # the menu was computed on a probe instance; a deserialized instance of a wire-ambiguous spec can parse
+            # differently once its strings carry another unique suffix: nothing to judge for this op
+            raise _Skip()
         cur = getattr(target, name)
         new = cur if how == "same" else None if how == "none" else _other(cur)
         try:
@@ -187,6 +189,10 @@ def _other(v):
 
 
 _counter = [0]
+
+
+class _Skip(Exception):
+    pass
 
 
 def run_history(ld, ad, val, deserialized, hist):
